@@ -144,6 +144,9 @@ def check(plan, transcript, config, opts, refs=None):
     out.keys.add(('threads', len(th), min(sw, 3000) // 25))
     out.probe('lazy-initialised-thread', sum(1 for v in th.values() if any(l.startswith('MODE') and 'lazy' in l for l in v)))
     out.probe('plans-with>=1000-switches', 1 if sw >= 1000 else 0)
+    out.probe('first-call-plan-in-a-new-process', 1 if '# fresh-process' in plan else 0)
+    out.probe('threads-aligned-at-a-barrier', 1 if 'BARRIER' in plan else 0)
+    out.probe('round-robin-lockstep-plan', 1 if '\nRR ' in plan else 0)
     refs = refs or []
     for (t, _), ref in zip(sorted(th.items()), refs):
         mine = got.get(t, [])
